@@ -1148,6 +1148,11 @@ class Interp:
             return I(a.p + b.p if isinstance(op, ast.Add) else a.p - b.p if isinstance(op, ast.Sub) else a.p * b.p)
         if isinstance(op, ast.Add) and isinstance(a, Sq) and isinstance(b, Sq) and self.listlike(a) and self.listlike(b):
             return Sq(cat(a.t, b.t))
+        if isinstance(op, ast.MatMult):
+            # a contraction: the rows of the left operand survive, those of the right operand are summed over
+            if isinstance(a, (Sq, Vec)) and not isinstance(b, (Sq, Vec)):
+                return a
+            return E(ast.BinOp(left=self.node_of(a), op=op, right=self.node_of(b)))
         # element-wise arithmetic with anything keeps the order of the rows
         for x, y in ((a, b), (b, a)):
             if isinstance(x, (Sq, Vec)) and not isinstance(y, (Sq, Vec)):
